@@ -34,14 +34,24 @@ META = {
             "observations_budget_independent: any function of instructions, states and result is the same for any two sufficient "
             "budgets and without a budget, only the tracker differs (by the difference of the budgets). (7) Configuration: "
             "config_path (set_fuel(None) after Some is unmetered, last set wins, clones keep their budget, every evaluation gets a "
-            "fresh tracker) and render_threshold_exact. The differential tie runs ~2900 (quick) / ~26000 (thorough) "
+            "fresh tracker) and render_threshold_exact. (8) The error on its way up: wrappers_preserve_out_of_fuel / "
+            "wrapper_kinds_come_from_frames (through any number of frames that propagate or wrap-keeping-source, the root cause stays "
+            "OutOfFuel and the kinds around it are those of the wrapping frames; a replacing frame destroys it) tied by "
+            "error_consumers_keep_source: the regenerated table of every map_err/.ok()/unwrap_or*/or_else/is_err/if let Err/Err(_)/"
+            "Err(e)=> in minijinja/src whose consumed value comes from a call that gets the State or starts an evaluation (or is "
+            "unresolved) shows only: propagate, wrap keeping the source (exactly perform_include and perform_super), or the writer's "
+            "I/O error taking precedence. The differential tie runs ~2900 (quick) / ~26000 (thorough) "
             "programs on the real engine (loops, macros, call blocks, imports, includes, inheritance, super, self.block, "
             "render_block/call_macro/Value::call from Rust, every nested-evaluation edge in emit position and 12 expression/captured "
             "positions, Rust callbacks that swallow the error of a nested evaluation, failing renders, expressions, random "
             "compositions): executed trace through a verif_hooks callback, threshold by bisection, every budget in [0, thr+8] and "
             "2^31, 2^32, 2^63-1, 2^63, 2^63+1, 2^64-2, 2^64-1 through render_captured, compared with the model (outcome, "
             "fuel_levels, number of dispatched instructions, levels seen by probe() inside nested evaluations, empty tank after a "
-            "swallowed error). Observer programs put debug(), debug(x), Debug of State/Environment through Rust callables, self, loop, "
+            "swallowed error). Re-entering programs reach nested evaluations through select/reject/selectattr/rejectattr/map with Rust "
+            "tests and filters that call call_macro/render_block, `is` tests, filter blocks, State::apply_filter/perform_test, object "
+            "calls and methods and a custom formatter, in 5 positions with the work parameter: every budget in the band where the "
+            "tank empties inside must give an error whose root cause is OutOfFuel with only BadInclude/EvalBlock wrappers around it. "
+            "Observer programs put debug(), debug(x), Debug of State/Environment through Rust callables, self, loop, "
             "namespace(), macro and module objects into the output, the Debug form of the Captured is part of every result and all "
             "text forms (Display, alternate Display, Debug, source chain) of non-fuel errors are compared with the unlimited run. For "
             "~600 programs every entry point (render, render_captured_to, render_str, render_named_str, template_from_str, "
@@ -362,7 +372,7 @@ def run(r):
                      "(limited run = prefix of the unlimited run) is validated on every scanned render, not proved",
                      "budgets between thr+8 and 2^31 and between the listed extremes behave like the model (proved for the model for every budget)",
                      "programs that panic or differ between two unlimited renders are outside the property (none generated)"]
-    r.regen_tables(["C13_FUEL_COSTS", "C13_FUEL_USES", "C13_TRACK_SITE", "C13_FUEL_READERS", "C13_ENTRY_CALLS"])
+    r.regen_tables(["C13_FUEL_COSTS", "C13_FUEL_USES", "C13_TRACK_SITE", "C13_FUEL_READERS", "C13_ENTRY_CALLS", "C13_ERR_CONSUMERS"])
     r.lean_prove("MJ.Props.C13", "MJ/Audit/C13.lean", extra_targets=["drive_c13"])
     exe = r.cargo_build("c13")
     if exe is None:
